@@ -574,3 +574,796 @@ Lemma scalar_example_never :
   merge [] 3 (ty_only [TString]) (ty_only [TObject]) = MNever
   /\ sfrag (ty_only [TString]) = true /\ sfrag (ty_only [TObject]) = true.
 Proof. vm_compute. repeat split. Qed.
+
+(* ====================================================================== the object fragment [ofrag]
+   merge soundness / never-soundness / closure by induction on the merge fuel *)
+
+
+
+Lemma m_ustr_eqb_refl k : ustr_eqb k k = true.
+Proof. apply m_ustr_eqb_eq. reflexivity. Qed.
+
+Lemma assoc_In {A} k (l : list (ustring * A)) x : assoc k l = Some x -> In (k, x) l.
+Proof.
+  induction l as [|[k' y] r IH]; simpl; [discriminate|].
+  destruct (ustr_eqb k k') eqn:E.
+  - intros H. inversion H; subst. apply m_ustr_eqb_eq in E. subst. left. reflexivity.
+  - intros H. right. apply IH. exact H.
+Qed.
+
+Lemma In_has_key {A} k (x : A) l : In (k, x) l -> has_key k l = true.
+Proof.
+  unfold has_key. induction l as [|[k' y] r IH]; simpl; [intros []|].
+  intros [H|H].
+  - inversion H; subst. rewrite m_ustr_eqb_refl. reflexivity.
+  - destruct (ustr_eqb k k'); [reflexivity|]. apply IH. exact H.
+Qed.
+
+Lemma has_key_false_assoc {A} k (l : list (ustring * A)) : has_key k l = false -> assoc k l = None.
+Proof. unfold has_key. destruct (assoc k l); [discriminate|reflexivity]. Qed.
+
+Lemma mem_ustr_In k l : mem_ustr k l = true <-> In k l.
+Proof.
+  unfold mem_ustr. rewrite existsb_exists. split.
+  - intros [x [Hin E]]. apply m_ustr_eqb_eq in E. subst. exact Hin.
+  - intros H. exists k. split; [exact H | apply m_ustr_eqb_refl].
+Qed.
+
+(* the two halves of valid_obj, as statements about membership *)
+Lemma valid_obj_spec (F : schema -> json -> bool) props ap kvs :
+  valid_obj F props ap kvs = true <->
+  (forall k s x, In (k, s) props -> assoc k kvs = Some x -> F s x = true)
+  /\ (forall a, ap = Some a -> forall k x, In (k, x) kvs -> has_key k props = true \/ F a x = true).
+Proof.
+  unfold valid_obj. rewrite andb_true_iff.
+  assert (P : forall ps,
+    (fix pr (ps : list (ustring * schema)) : bool :=
+       match ps with
+       | [] => true
+       | (k, s) :: r => match assoc k kvs with Some x => F s x | None => true end && pr r
+       end) ps = true <->
+    (forall k s x, In (k, s) ps -> assoc k kvs = Some x -> F s x = true)).
+  { induction ps as [|[k s] r IH]; simpl.
+    - split; [intros _ k s x [] | reflexivity].
+    - rewrite andb_true_iff, IH. split.
+      + intros [H1 H2] k' s' x [E|Hin] Hx.
+        * inversion E; subst. rewrite Hx in H1. exact H1.
+        * eapply H2; eauto.
+      + intros H. split.
+        * destruct (assoc k kvs) as [x|] eqn:Ex; [|reflexivity]. eapply H; [left; reflexivity | exact Ex].
+        * intros k' s' x Hin Hx. eapply H; [right; exact Hin | exact Hx]. }
+  rewrite P. clear P.
+  split; intros [H1 H2]; (split; [exact H1|]).
+  - intros a -> k x Hin. rewrite forallb_forall in H2. specialize (H2 _ Hin). simpl in H2.
+    apply orb_true_iff in H2. exact H2.
+  - destruct ap as [a|]; [|reflexivity]. apply forallb_forall. intros [k x] Hin. simpl.
+    apply orb_true_iff. eapply H2; [reflexivity | exact Hin].
+Qed.
+
+
+Definition is_false (s : schema) : bool := match s with SBool false => true | _ => false end.
+Definition ap_is_false (ap : option schema) : bool := match ap with Some (SBool false) => true | _ => false end.
+
+Lemma is_false_eq s : is_false s = true -> s = SBool false.
+Proof. destruct s as [[|]|]; simpl; intros H; try discriminate H; reflexivity. Qed.
+
+Lemma props_loop_cons req apm k s rest :
+  props_loop req apm ((k, MOk s) :: rest) =
+  if is_false s then
+    if mem_ustr k req then MNever
+    else if ap_is_false apm then props_loop req apm rest
+         else mbind (props_loop req apm rest) (fun l => MOk ((k, SBool false) :: l))
+  else mbind (props_loop req apm rest) (fun l => MOk ((k, s) :: l)).
+Proof.
+  destruct s as [[|]|]; simpl; try reflexivity.
+  destruct (mem_ustr k req); [reflexivity|].
+  destruct apm as [[[|]|]|]; reflexivity.
+Qed.
+
+Lemma props_loop_ok req apm ps : forall pm,
+  props_loop req apm ps = MOk pm ->
+  (forall k r, In (k, r) ps -> exists s, r = MOk s)
+  /\ (forall k s, In (k, s) pm -> In (k, MOk s) ps)
+  /\ (forall k s, In (k, MOk s) ps -> is_false s = false -> In (k, s) pm)
+  /\ (forall k s, In (k, MOk s) ps -> is_false s = true -> mem_ustr k req = false /\ (ap_is_false apm = false -> In (k, s) pm)).
+Proof.
+  induction ps as [|[k r] rest IH]; intros pm H.
+  - simpl in H. inversion H; subst. repeat split; intros; try contradiction.
+  - destruct r as [s| | |]; try (simpl in H; discriminate H).
+    rewrite props_loop_cons in H.
+    destruct (is_false s) eqn:Fs.
+    + destruct (mem_ustr k req) eqn:Mk; [discriminate H|].
+      pose proof (is_false_eq _ Fs) as ->.
+      destruct (ap_is_false apm) eqn:Af.
+      * destruct (IH _ H) as (I0 & I1 & I2 & I3).
+        split; [|split; [|split]].
+        -- intros k' r' [E|Hin]; [inversion E; subst; eauto | eauto].
+        -- intros k' s' Hin. right. eauto.
+        -- intros k' s' [E|Hin] Hf; [inversion E; subst; discriminate Hf | eauto].
+        -- intros k' s' [E|Hin] Hf.
+           ++ inversion E; subst. split; [exact Mk | intros C; discriminate C].
+           ++ eauto.
+      * destruct (props_loop req apm rest) as [l| | |] eqn:El; simpl in H; try discriminate H.
+        inversion H; subst.
+        destruct (IH _ eq_refl) as (I0 & I1 & I2 & I3).
+        split; [|split; [|split]].
+        -- intros k' r' [E|Hin]; [inversion E; subst; eauto | eauto].
+        -- intros k' s' [E|Hin]; [inversion E; subst; left; reflexivity | right; eauto].
+        -- intros k' s' [E|Hin] Hf; [inversion E; subst; discriminate Hf | right; eauto].
+        -- intros k' s' [E|Hin] Hf.
+           ++ inversion E; subst. split; [exact Mk | intros _; left; reflexivity].
+           ++ destruct (I3 _ _ Hin Hf) as [J1 J2]. split; [exact J1 | intros C; right; auto].
+    + destruct (props_loop req apm rest) as [l| | |] eqn:El; simpl in H; try discriminate H.
+      inversion H; subst.
+      destruct (IH _ eq_refl) as (I0 & I1 & I2 & I3).
+      split; [|split; [|split]].
+      -- intros k' r' [E|Hin]; [inversion E; subst; eauto | eauto].
+      -- intros k' s' [E|Hin]; [inversion E; subst; left; reflexivity | right; eauto].
+      -- intros k' s' [E|Hin] Hf; [inversion E; subst; left; reflexivity | right; eauto].
+      -- intros k' s' [E|Hin] Hf.
+         ++ inversion E; subst. rewrite Fs in Hf. discriminate Hf.
+         ++ destruct (I3 _ _ Hin Hf) as [J1 J2]. split; [exact J1 | intros C; right; auto].
+Qed.
+
+Lemma props_loop_never req apm ps :
+  props_loop req apm ps = MNever ->
+  (exists k, In (k, MOk (SBool false)) ps /\ mem_ustr k req = true) \/ (exists k, In (k, MNever) ps).
+Proof.
+  induction ps as [|[k r] rest IH]; intros H; [simpl in H; discriminate H|].
+  destruct r as [s| | |]; try (simpl in H; discriminate H).
+  - rewrite props_loop_cons in H.
+    assert (Hrest : props_loop req apm rest = MNever ->
+                    (exists k0, In (k0, MOk (SBool false)) ((k, MOk s) :: rest) /\ mem_ustr k0 req = true) \/
+                    (exists k0, In (k0, @MNever schema) ((k, MOk s) :: rest))).
+    { intros Hr. destruct (IH Hr) as [[k0 [Hin Hm]]|[k0 Hin]]; [left|right]; exists k0; simpl; auto. }
+    destruct (is_false s) eqn:Fs.
+    + destruct (mem_ustr k req) eqn:Mk.
+      * left. exists k. apply is_false_eq in Fs. subst. split; [left; reflexivity | exact Mk].
+      * destruct (ap_is_false apm); [auto|].
+        destruct (props_loop req apm rest); simpl in H; try discriminate H. auto.
+    + destruct (props_loop req apm rest); simpl in H; try discriminate H. auto.
+  - right. exists k. left. reflexivity.
+Qed.
+
+
+Lemma choose_max_sem a b len :
+  opt_all (fun m => N.leb m len) a = true -> opt_all (fun m => N.leb m len) b = true ->
+  opt_all (fun m => N.leb m len) (choose N.max a b) = true.
+Proof.
+  destruct a as [x|], b as [y|]; simpl; intros H1 H2; auto.
+  apply N.leb_le in H1. apply N.leb_le in H2. apply N.leb_le. lia.
+Qed.
+
+Lemma choose_min_sem a b len :
+  opt_all (fun m => N.leb len m) a = true -> opt_all (fun m => N.leb len m) b = true ->
+  opt_all (fun m => N.leb len m) (choose N.min a b) = true.
+Proof.
+  destruct a as [x|], b as [y|]; simpl; intros H1 H2; auto.
+  apply N.leb_le in H1. apply N.leb_le in H2. apply N.leb_le. lia.
+Qed.
+
+Lemma min_gt_max_false mn mx len :
+  opt_all (fun m => N.leb m len) mn = true -> opt_all (fun m => N.leb len m) mx = true ->
+  min_gt_max mn mx = false.
+Proof.
+  destruct mn as [x|], mx as [y|]; simpl; intros H1 H2; auto.
+  apply N.leb_le in H1. apply N.leb_le in H2. apply N.ltb_ge. lia.
+Qed.
+
+Section Obj.
+  Variable re_match : ustring -> ustring -> bool.
+  Variable fmt_ok : ustring -> ustring -> bool.
+  Variable o : vopts.
+  Variable DV : defs.
+  Variable n : nat.
+  Local Notation V := (Valid.validx re_match fmt_ok o DV n).
+
+  Definition rs_ok (r : mres schema) (a b : schema) : Prop :=
+    match r with
+    | MOk m => ofrag m = true /\ forall v, V a v = true -> V b v = true -> V m v = true
+    | MNever => forall v, V a v = true -> V b v = true -> False
+    | _ => True
+    end.
+
+  Variable mrg : schema -> schema -> mres schema.
+  Hypothesis Hm : forall x y, ofrag x = true -> ofrag y = true -> rs_ok (mrg x y) x y.
+  Hypothesis Hbool : forall bx by_,
+      mrg (SBool bx) (SBool by_) = (if bx && by_ then MOk (SBool true) else MNever)
+      \/ mrg (SBool bx) (SBool by_) = MUnsupp.
+
+  Definition apsem (ap : option schema) (x : json) : bool := opt_all (fun a => V a x) ap.
+
+  Lemma filter_prop_sem ap prop x :
+    ap_bool ap = true -> apsem ap x = true -> V prop x = true -> V (filter_prop ap prop) x = true.
+  Proof.
+    destruct ap as [[[|]|]|]; simpl; intros A H1 H2; try exact H2; try discriminate A.
+    rewrite valid_SBool in H1. discriminate H1.
+  Qed.
+
+  Lemma filter_prop_ofrag ap prop : ap_bool ap = true -> ofrag prop = true -> ofrag (filter_prop ap prop) = true.
+  Proof. destruct ap as [[[|]|]|]; simpl; intros A H; try exact H; try reflexivity; discriminate A. Qed.
+
+  Lemma merge_ap_sound ap ap' :
+    ap_bool ap = true -> ap_bool ap' = true ->
+    match merge_ap mrg ap ap' with
+    | MOk apm => ap_bool apm = true
+                 /\ (forall x, apsem ap x = true -> apsem ap' x = true -> apsem apm x = true)
+                 /\ (ap_is_false apm = true -> ap_is_false ap = true \/ ap_is_false ap' = true)
+                 /\ (ap = None -> ap' = None -> apm = None)
+    | MNever => False
+    | _ => True
+    end.
+  Proof.
+    destruct ap as [[bx|]|], ap' as [[by_|]|]; simpl; intros A B; try discriminate A; try discriminate B.
+    - destruct (Hbool bx by_) as [E|E]; rewrite E; [|exact I].
+      destruct bx, by_; simpl; repeat split; auto; try (intros; discriminate);
+        try (intros x H1 H2; rewrite valid_SBool in *; congruence).
+    - repeat split; auto; try (intros; discriminate).
+    - repeat split; auto; try (intros; discriminate).
+    - repeat split; auto.
+  Qed.
+
+  (* ---- the entries fed to props_loop *)
+  Variables (props props' : list (ustring * schema)) (ap ap' : option schema).
+  Hypothesis Fa : forallb (fun kv => ofrag (snd kv)) props = true.
+  Hypothesis Fb : forallb (fun kv => ofrag (snd kv)) props' = true.
+  Hypothesis Aa : ap_bool ap = true.
+  Hypothesis Ab : ap_bool ap' = true.
+
+  Definition from_a :=
+    map (fun kv : ustring * schema =>
+           (fst kv, match assoc (fst kv) props' with
+                    | Some sb => or_false (mrg (snd kv) sb)
+                    | None => MOk (filter_prop ap' (snd kv))
+                    end)) props.
+  Definition from_b :=
+    map (fun kv : ustring * schema => (fst kv, @MOk schema (filter_prop ap (snd kv))))
+        (filter (fun kv => negb (has_key (fst kv) props)) props').
+
+  Lemma ofrag_in (l : list (ustring * schema)) k s :
+    forallb (fun kv => ofrag (snd kv)) l = true -> In (k, s) l -> ofrag s = true.
+  Proof. intros H Hin. rewrite forallb_forall in H. apply (H (k, s) Hin). Qed.
+
+  Lemma in_from_a k r :
+    In (k, r) from_a ->
+    exists sa, In (k, sa) props /\
+      r = match assoc k props' with
+          | Some sb => or_false (mrg sa sb)
+          | None => MOk (filter_prop ap' sa)
+          end.
+  Proof.
+    unfold from_a. rewrite in_map_iff. intros [[k' sa] [E Hin]]. simpl in E. inversion E; subst.
+    exists sa. split; [exact Hin | reflexivity].
+  Qed.
+
+  Lemma in_from_b k r :
+    In (k, r) from_b ->
+    exists sb, In (k, sb) props' /\ has_key k props = false /\ r = MOk (filter_prop ap sb).
+  Proof.
+    unfold from_b. rewrite in_map_iff. intros [[k' sb] [E Hin]]. simpl in E. inversion E; subst.
+    apply filter_In in Hin. destruct Hin as [Hin Hk]. simpl in Hk. apply negb_true_iff in Hk.
+    exists sb. repeat split; assumption.
+  Qed.
+
+  Lemma entries_no_never k : ~ In (k, @MNever schema) (from_a ++ from_b).
+  Proof.
+    rewrite in_app_iff. intros [H|H].
+    - apply in_from_a in H. destruct H as [sa [_ E]].
+      destruct (assoc k props'); [|discriminate E].
+      destruct (mrg sa s); simpl in E; discriminate E.
+    - apply in_from_b in H. destruct H as [sb [_ [_ E]]]. discriminate E.
+  Qed.
+
+  Lemma entries_frag k s : In (k, MOk s) (from_a ++ from_b) -> ofrag s = true.
+  Proof.
+    rewrite in_app_iff. intros [H|H].
+    - apply in_from_a in H. destruct H as [sa [Hin E]].
+      pose proof (ofrag_in _ _ _ Fa Hin) as Fsa.
+      destruct (assoc k props') as [sb|] eqn:Eb.
+      + apply assoc_In in Eb. pose proof (ofrag_in _ _ _ Fb Eb) as Fsb.
+        pose proof (Hm sa sb Fsa Fsb) as H. unfold rs_ok in H.
+        destruct (mrg sa sb); simpl in E; inversion E; subst; [apply H | reflexivity].
+      + inversion E; subst. apply filter_prop_ofrag; assumption.
+    - apply in_from_b in H. destruct H as [sb [Hin [_ E]]]. inversion E; subst.
+      apply filter_prop_ofrag; [assumption | eapply ofrag_in; eauto].
+  Qed.
+
+  Lemma entries_sem kvs k s x :
+    valid_obj V props ap kvs = true -> valid_obj V props' ap' kvs = true ->
+    In (k, MOk s) (from_a ++ from_b) -> assoc k kvs = Some x -> V s x = true.
+  Proof.
+    intros Ha Hb Hin Hx.
+    apply valid_obj_spec in Ha. destruct Ha as [Ha1 Ha2].
+    apply valid_obj_spec in Hb. destruct Hb as [Hb1 Hb2].
+    pose proof (assoc_In _ _ _ Hx) as Hkx.
+    apply in_app_iff in Hin. destruct Hin as [H|H].
+    - apply in_from_a in H. destruct H as [sa [Hina E]].
+      pose proof (Ha1 _ _ _ Hina Hx) as Vsa.
+      pose proof (ofrag_in _ _ _ Fa Hina) as Fsa.
+      destruct (assoc k props') as [sb|] eqn:Eb.
+      + pose proof (assoc_In _ _ _ Eb) as Hinb.
+        pose proof (Hb1 _ _ _ Hinb Hx) as Vsb.
+        pose proof (ofrag_in _ _ _ Fb Hinb) as Fsb.
+        pose proof (Hm sa sb Fsa Fsb) as H. unfold rs_ok in H.
+        destruct (mrg sa sb); simpl in E; inversion E; subst.
+        * apply H; assumption.
+        * exfalso. eapply H; eassumption.
+      + inversion E; subst. apply filter_prop_sem; [exact Ab | | exact Vsa].
+        unfold apsem. destruct ap' as [a'|]; [|reflexivity]. simpl.
+        destruct (Hb2 a' eq_refl _ _ Hkx) as [Hk|Hv]; [|exact Hv].
+        unfold has_key in Hk. rewrite Eb in Hk. discriminate Hk.
+    - apply in_from_b in H. destruct H as [sb [Hinb [Hk E]]]. inversion E; subst.
+      pose proof (Hb1 _ _ _ Hinb Hx) as Vsb.
+      apply filter_prop_sem; [exact Aa | | exact Vsb].
+      unfold apsem. destruct ap as [a0|]; [|reflexivity]. simpl.
+      destruct (Ha2 a0 eq_refl _ _ Hkx) as [Hk'|Hv]; [|exact Hv].
+      rewrite Hk in Hk'. discriminate Hk'.
+  Qed.
+
+  Lemma entries_cover_a k sa : In (k, sa) props -> exists r, In (k, r) (from_a ++ from_b).
+  Proof.
+    intros Hin. eexists. apply in_app_iff. left. unfold from_a. apply in_map_iff.
+    exists (k, sa). split; [reflexivity | exact Hin].
+  Qed.
+
+  Lemma entries_cover_b k sb : In (k, sb) props' -> exists r, In (k, r) (from_a ++ from_b).
+  Proof.
+    intros Hin. destruct (has_key k props) eqn:Hk.
+    - unfold has_key in Hk. destruct (assoc k props) as [sa|] eqn:Ea; [|discriminate Hk].
+      apply assoc_In in Ea. eapply entries_cover_a; eauto.
+    - eexists. apply in_app_iff. right. unfold from_b. apply in_map_iff.
+      exists (k, sb). split; [reflexivity|]. apply filter_In. split; [exact Hin|]. simpl. rewrite Hk. reflexivity.
+  Qed.
+End Obj.
+
+
+Section ObjGroup.
+  Variable re_match : ustring -> ustring -> bool.
+  Variable fmt_ok : ustring -> ustring -> bool.
+  Variable o : vopts.
+  Variable DV : defs.
+  Variable n : nat.
+  Local Notation V := (Valid.validx re_match fmt_ok o DV n).
+  Local Notation rsok := (rs_ok re_match fmt_ok o DV n).
+
+  Variable mrg : schema -> schema -> mres schema.
+  Hypothesis Hm : forall x y, ofrag x = true -> ofrag y = true -> rsok (mrg x y) x y.
+  Hypothesis Hbool : forall bx by_,
+      mrg (SBool bx) (SBool by_) = (if bx && by_ then MOk (SBool true) else MNever)
+      \/ mrg (SBool bx) (SBool by_) = MUnsupp.
+
+  Definition osem (props : list (ustring * schema)) (req : list ustring) (ap : option schema)
+             (mnp mxp : option N) (kvs : list (ustring * json)) : Prop :=
+    valid_obj_local req mnp mxp (JObj kvs) = true /\ valid_obj V props ap kvs = true.
+
+  Lemma has_key_assoc {A} k (l : list (ustring * A)) : has_key k l = true -> exists x, assoc k l = Some x.
+  Proof. unfold has_key. destruct (assoc k l) as [x|]; [eauto | discriminate]. Qed.
+
+  Lemma merge_obj_sound props req ap mnp mxp props' req' ap' mnp' mxp' :
+    forallb (fun kv => ofrag (snd kv)) props = true ->
+    forallb (fun kv => ofrag (snd kv)) props' = true ->
+    ap_bool ap = true -> ap_bool ap' = true ->
+    match merge_obj mrg (props, req, ap, mnp, mxp) (props', req', ap', mnp', mxp') with
+    | MOk (pm, rm, apm, mnm, mxm) =>
+        forallb (fun kv => ofrag (snd kv)) pm = true /\ ap_bool apm = true
+        /\ (obj_absent props req ap mnp mxp = true -> obj_absent props' req' ap' mnp' mxp' = true ->
+            obj_absent pm rm apm mnm mxm = true)
+        /\ forall kvs, osem props req ap mnp mxp kvs -> osem props' req' ap' mnp' mxp' kvs ->
+                       osem pm rm apm mnm mxm kvs
+    | MNever => obj_absent props req ap mnp mxp = false /\ obj_absent props' req' ap' mnp' mxp' = false
+                /\ forall kvs, osem props req ap mnp mxp kvs -> osem props' req' ap' mnp' mxp' kvs -> False
+    | _ => True
+    end.
+  Proof.
+    intros Fa Fb Aa Ab.
+    unfold merge_obj. cbv beta iota zeta.
+    destruct (obj_absent props req ap mnp mxp) eqn:Oa.
+    { split; [exact Fb | split; [exact Ab | split; [intros _ H; exact H | intros kvs _ H; exact H]]]. }
+    destruct (obj_absent props' req' ap' mnp' mxp') eqn:Ob.
+    { split; [exact Fa | split; [exact Aa | split; [intros C; discriminate C | intros kvs H _; exact H]]]. }
+    pose proof (merge_ap_sound re_match fmt_ok o DV n mrg Hbool ap ap' Aa Ab) as Hap.
+    destruct (merge_ap mrg ap ap') as [apm| | |]; cbn [mbind]; try exact I; [|destruct Hap].
+    destruct Hap as (Am & Sap & Fap & _).
+    set (ps := from_a mrg props props' ap' ++ from_b props props' ap).
+    assert (Esem : forall kvs k s x, valid_obj V props ap kvs = true -> valid_obj V props' ap' kvs = true ->
+                                     In (k, MOk s) ps -> assoc k kvs = Some x -> V s x = true).
+    { intros kvs k s x Ha Hb. eapply entries_sem; eauto. }
+    assert (Enofalse : forall kvs k x, valid_obj V props ap kvs = true -> valid_obj V props' ap' kvs = true ->
+                                       In (k, MOk (SBool false)) ps -> assoc k kvs = Some x -> False).
+    { intros kvs k x Ha Hb Hin Hx. pose proof (Esem kvs k _ x Ha Hb Hin Hx) as C.
+      rewrite valid_SBool in C. discriminate C. }
+    match goal with
+    | |- context [props_loop ?r ?a ?l] => destruct (props_loop r a l) as [pm| | |] eqn:El
+    end; cbn [mbind]; try exact I.
+    - (* the loop succeeded *)
+      destruct (props_loop_ok (union_req req req') apm ps pm El) as (P0 & P1 & P2 & P3).
+      destruct (min_gt_max (choose N.max mnp mnp') (choose N.min mxp mxp')) eqn:Em.
+      + split; [reflexivity|split; [reflexivity|]].
+        intros kvs [La _] [Lb _]. unfold valid_obj_local in La, Lb.
+        apply andb_true_iff in La. destruct La as [La La3]. apply andb_true_iff in La. destruct La as [La1 La2].
+        apply andb_true_iff in Lb. destruct Lb as [Lb Lb3]. apply andb_true_iff in Lb. destruct Lb as [Lb1 Lb2].
+        rewrite (min_gt_max_false _ _ (N.of_nat (length kvs))) in Em; [discriminate Em | |].
+        * apply choose_max_sem; assumption.
+        * apply choose_min_sem; assumption.
+      + split; [|split; [|split]].
+        * apply forallb_forall. intros [k s] Hin. simpl.
+          eapply (entries_frag re_match fmt_ok o DV n mrg Hm props props' ap ap' Fa Fb Aa Ab k). apply P1. exact Hin.
+        * exact Am.
+        * intros C. discriminate C.
+        * intros kvs [La Va] [Lb Vb]. split.
+          -- unfold valid_obj_local in *.
+             apply andb_true_iff in La. destruct La as [La La3]. apply andb_true_iff in La. destruct La as [La1 La2].
+             apply andb_true_iff in Lb. destruct Lb as [Lb Lb3]. apply andb_true_iff in Lb. destruct Lb as [Lb1 Lb2].
+             rewrite !andb_true_iff. repeat split.
+             ++ unfold union_req. rewrite forallb_app. rewrite La1. simpl.
+                apply forallb_forall. intros k Hk. apply filter_In in Hk. destruct Hk as [Hk _].
+                rewrite forallb_forall in Lb1. apply Lb1. exact Hk.
+             ++ apply choose_max_sem; assumption.
+             ++ apply choose_min_sem; assumption.
+          -- apply valid_obj_spec. split.
+             ++ intros k s x Hin Hx. eapply Esem; eauto.
+             ++ intros a Ea k x Hkx. subst apm.
+                destruct a as [[|]|]; try discriminate Am.
+                { right. apply valid_SBool. }
+                left.
+                assert (Hk : has_key k kvs = true) by (eapply In_has_key; eauto).
+                destruct (has_key_assoc _ _ Hk) as [x0 Hx0].
+                assert (Hent : exists r, In (k, r) ps).
+                { destruct (Fap eq_refl) as [F|F].
+                  - destruct ap as [[[|]|]|]; try discriminate F.
+                    pose proof Va as Va'. apply valid_obj_spec in Va'. destruct Va' as [_ Va2].
+                    destruct (Va2 _ eq_refl _ _ Hkx) as [Hp|C]; [|rewrite valid_SBool in C; discriminate C].
+                    destruct (has_key_assoc _ _ Hp) as [sa Hsa]. apply assoc_In in Hsa.
+                    eapply entries_cover_a; eauto.
+                  - destruct ap' as [[[|]|]|]; try discriminate F.
+                    pose proof Vb as Vb'. apply valid_obj_spec in Vb'. destruct Vb' as [_ Vb2].
+                    destruct (Vb2 _ eq_refl _ _ Hkx) as [Hp|C]; [|rewrite valid_SBool in C; discriminate C].
+                    destruct (has_key_assoc _ _ Hp) as [sb Hsb]. apply assoc_In in Hsb.
+                    eapply entries_cover_b; eauto. }
+                destruct Hent as [r Hr]. destruct (P0 _ _ Hr) as [s ->].
+                destruct (is_false s) eqn:Fs.
+                { exfalso. apply is_false_eq in Fs. subst s. eapply Enofalse; eauto. }
+                eapply In_has_key. eapply P2; eauto.
+    - (* the loop reported never *)
+      split; [reflexivity|split; [reflexivity|]].
+      intros kvs [La Va] [Lb Vb].
+      destruct (props_loop_never _ _ _ El) as [[k [Hin Hreq]]|[k Hin]].
+      + apply mem_ustr_In in Hreq. unfold union_req in Hreq. apply in_app_iff in Hreq.
+        unfold valid_obj_local in La, Lb.
+        apply andb_true_iff in La. destruct La as [La _]. apply andb_true_iff in La. destruct La as [La1 _].
+        apply andb_true_iff in Lb. destruct Lb as [Lb _]. apply andb_true_iff in Lb. destruct Lb as [Lb1 _].
+        rewrite forallb_forall in La1, Lb1.
+        assert (Hk : has_key k kvs = true).
+        { destruct Hreq as [H|H]; [apply La1; exact H | apply filter_In in H; apply Lb1; apply H]. }
+        destruct (has_key_assoc _ _ Hk) as [x0 Hx0].
+        eapply Enofalse; eauto.
+      + eapply entries_no_never; eauto.
+  Qed.
+End ObjGroup.
+
+
+Lemma all_object_obj o ty v : all_object ty = true -> valid_type o ty v = true -> exists kvs, v = JObj kvs.
+Proof.
+  destruct ty as [[|t l]|]; simpl; try discriminate. intros H Hv.
+  unfold valid_type in Hv. simpl in Hv.
+  assert (Hall : forall t', In t' (t :: l) -> t' = TObject).
+  { intros t' Hin. apply andb_true_iff in H. destruct H as [H1 H2]. destruct Hin as [<-|Hin].
+    - symmetry. apply itype_eqb_true. exact H1.
+    - rewrite forallb_forall in H2. symmetry. apply itype_eqb_true. apply H2. exact Hin. }
+  change (existsb (fun t0 => type_ok (int_accepts_integral_float o) t0 v) (t :: l) = true) in Hv.
+  apply existsb_exists in Hv. destruct Hv as [t' [Hin Hok]].
+  rewrite (Hall _ Hin) in Hok. destruct v; simpl in Hok; try discriminate Hok. eauto.
+Qed.
+
+Lemma merge_ty_all_object ta tb t :
+  merge_ty ta tb = Some t -> all_object ta = true \/ all_object tb = true -> all_object t = true.
+Proof.
+  assert (K : forall la lb, all_object (Some la) = true \/ all_object (Some lb) = true ->
+              forall x r, filter (fun t0 => mem_ty t0 la && mem_ty t0 lb) all_itypes = x :: r ->
+              all_object (Some (x :: r)) = true).
+  { intros la lb H x r Ef.
+    assert (Hall : forall y, In y (x :: r) -> itype_eqb TObject y = true).
+    { intros y Hy. rewrite <- Ef in Hy. apply filter_In in Hy. destruct Hy as [_ Hy].
+      apply andb_true_iff in Hy. destruct Hy as [Ha Hb].
+      unfold mem_ty in Ha, Hb. apply existsb_exists in Ha. apply existsb_exists in Hb.
+      destruct Ha as [ya [Iya Eya]]. destruct Hb as [yb [Iyb Eyb]].
+      apply itype_eqb_true in Eya. apply itype_eqb_true in Eyb. subst ya yb.
+      destruct H as [H|H].
+      - destruct la as [|t0 l0]; [discriminate H|]. simpl in H.
+        change (forallb (itype_eqb TObject) (t0 :: l0) = true) in H. rewrite forallb_forall in H. apply H. exact Iya.
+      - destruct lb as [|t0 l0]; [discriminate H|]. simpl in H.
+        change (forallb (itype_eqb TObject) (t0 :: l0) = true) in H. rewrite forallb_forall in H. apply H. exact Iyb. }
+    unfold all_object. apply forallb_forall. exact Hall. }
+  destruct ta as [la|], tb as [lb|]; unfold merge_ty; cbv zeta; intros E H.
+  - destruct (filter (fun t0 => mem_ty t0 la && mem_ty t0 lb) all_itypes) as [|x r] eqn:Ef; [discriminate E|].
+    inversion E; subst. eapply K; eauto.
+  - inversion E; subst. destruct H as [H|H]; [exact H | discriminate H].
+  - inversion E; subst. destruct H as [H|H]; [discriminate H | exact H].
+  - destruct H as [H|H]; discriminate H.
+Qed.
+
+
+Section ObjMain.
+  Variable re_match : ustring -> ustring -> bool.
+  Variable fmt_ok : ustring -> ustring -> bool.
+  Variable o : vopts.
+  Variable DV : defs.
+  Variable n : nat.
+  Variable D : defs.
+  Local Notation V := (Valid.validx re_match fmt_ok o DV n).
+  Local Notation rsok := (rs_ok re_match fmt_ok o DV n).
+
+  Lemma V_ofrag ty enum cst nv sv items props req ap mnp mxp d t v :
+    V (SObj ty None enum cst nv sv ItemsAbsent items None None None false props req ap mnp mxp None
+            None None None None d t) v
+    = valid_type o ty v && valid_enum enum v && valid_const cst v && valid_num nv v
+      && valid_str re_match sv v && valid_obj_local req mnp mxp v
+      && match v with JObj kvs => valid_obj V props ap kvs | _ => true end.
+  Proof.
+    rewrite validx_SObj. cbv zeta. unfold combine_ref, here_v, valid_local, valid_format, valid_arr_local.
+    destruct v; simpl; rewrite ?andb_true_r; reflexivity.
+  Qed.
+
+  Lemma ofrag_shape ty fmt enum cst nv sv ik items ai mni mxi uq props req ap mnp mxp allo anyo oneo no ref d t :
+    ofrag (SObj ty fmt enum cst nv sv ik items ai mni mxi uq props req ap mnp mxp allo anyo oneo no ref d t) = true ->
+    fmt = None /\ ik = ItemsAbsent /\ ai = None /\ mni = None /\ mxi = None /\ uq = false
+    /\ allo = None /\ anyo = None /\ oneo = None /\ no = None /\ ref = None
+    /\ nonum ty = true /\ simple_enum enum = true /\ opt_all simple_json cst = true
+    /\ ap_bool ap = true /\ (obj_absent props req ap mnp mxp || all_object ty = true)
+    /\ forallb (fun kv => ofrag (snd kv)) props = true.
+  Proof.
+    intros H. cbn [ofrag] in H. unfold arr_absent in H.
+    repeat match goal with
+           | Hx : _ && _ = true |- _ => apply andb_true_iff in Hx; destruct Hx
+           end.
+    destruct fmt; [simpl in *; congruence|].
+    destruct ik; try (simpl in *; congruence).
+    destruct ai; [simpl in *; congruence|].
+    destruct mni; [simpl in *; congruence|].
+    destruct mxi; [simpl in *; congruence|].
+    destruct uq; [simpl in *; congruence|].
+    destruct allo; [simpl in *; congruence|].
+    destruct anyo; [simpl in *; congruence|].
+    destruct oneo; [simpl in *; congruence|].
+    destruct no; [simpl in *; congruence|].
+    destruct ref; [simpl in *; congruence|].
+    repeat split; assumption.
+  Qed.
+
+  Lemma merge_obj_eq f ty enum cst nv sv items props req ap mnp mxp d t
+        ty' enum' cst' nv' sv' items' props' req' ap' mnp' mxp' d' t' :
+    merge D (S f)
+          (SObj ty None enum cst nv sv ItemsAbsent items None None None false props req ap mnp mxp None
+                None None None None d t)
+          (SObj ty' None enum' cst' nv' sv' ItemsAbsent items' None None None false props' req' ap' mnp' mxp' None
+                None None None None d' t')
+    = match merge_ty ty ty' with
+      | None => MNever
+      | Some tym =>
+          mbind (merge_nv nv nv') (fun nvm =>
+          mbind (merge_sv sv sv') (fun svm =>
+          mbind (merge_obj (merge D f) (props, req, ap, mnp, mxp) (props', req', ap', mnp', mxp')) (fun om =>
+          mbind (merge_enum enum cst enum' cst') (fun em =>
+            let '(pm, rm, apm, mnpm, mxpm) := om in
+            MOk (SObj tym None (option_map (filter (value_validate tym None None)) em) None nvm svm
+                      ItemsAbsent items' None None None false pm rm apm mnpm mxpm None
+                      None None None None None None)))))
+      end.
+  Proof.
+    match goal with
+    | |- merge D (S f) ?A ?B = _ => transitivity (merge_so (merge D f) (roughly (S f)) A B); [reflexivity|]
+    end.
+    unfold merge_so, merge_fmt.
+    destruct (merge_ty ty ty'); [|reflexivity].
+    destruct (merge_nv nv nv'); cbn [mbind]; try reflexivity.
+    destruct (merge_sv sv sv'); cbn [mbind]; try reflexivity.
+    assert (Earr : merge_arr (merge D f) (ItemsAbsent, items, @None schema, @None N, @None N, false)
+                             (ItemsAbsent, items', @None schema, @None N, @None N, false)
+                   = MOk (ItemsAbsent, items', None, None, None, false)) by reflexivity.
+    rewrite Earr. cbn [mbind].
+    destruct (merge_obj (merge D f) (props, req, ap, mnp, mxp) (props', req', ap', mnp', mxp'))
+      as [[[[[pm rm] apm] mnm] mxm]| | |]; cbn [mbind]; try reflexivity.
+    destruct (merge_enum enum cst enum' cst') as [[ev|]| | |]; reflexivity.
+  Qed.
+End ObjMain.
+
+
+Section ObjThm.
+  Variable re_match : ustring -> ustring -> bool.
+  Variable fmt_ok : ustring -> ustring -> bool.
+  Variable o : vopts.
+  Variable DV : defs.
+  Variable n : nat.
+  Variable D : defs.
+  Local Notation V := (Valid.validx re_match fmt_ok o DV n).
+  Local Notation rsok := (rs_ok re_match fmt_ok o DV n).
+
+  Lemma merge_bools f bx by_ :
+    merge D f (SBool bx) (SBool by_) = (if bx && by_ then MOk (SBool true) else MNever)
+    \/ merge D f (SBool bx) (SBool by_) = MUnsupp.
+  Proof. destruct f; [right; reflexivity | left; destruct bx, by_; reflexivity]. Qed.
+
+  Lemma enum_filter_sem tym em v :
+    simple_enum em = true -> enum_sem em v = true -> valid_type o tym v = true ->
+    valid_enum (option_map (filter (value_validate tym None None)) em) v = true.
+  Proof.
+    intros Sem Hem Tm. destruct em as [ev|]; [|reflexivity]. simpl in *.
+    apply existsb_exists in Hem. destruct Hem as [x [Ix Ex]].
+    apply existsb_exists. exists x. split; [|exact Ex].
+    apply filter_In. split; [exact Ix|].
+    unfold value_validate. simpl.
+    destruct tym as [l|]; [|reflexivity]. simpl.
+    unfold valid_type in Tm. simpl in Tm.
+    apply existsb_exists in Tm. destruct Tm as [t1 [I1 O1]].
+    apply existsb_exists. exists t1. split; [exact I1|].
+    rewrite forallb_forall in Sem.
+    eapply simple_check_instance; [apply Sem; exact Ix | exact Ex | exact O1].
+  Qed.
+
+  Theorem merge_ofrag_sound : forall f a b,
+    ofrag a = true -> ofrag b = true -> rsok (merge D f a b) a b.
+  Proof.
+    induction f as [|f IH]; intros a b Fa Fb; [exact I|].
+    destruct a as [ba|ty fmt enum cst nv sv ik items ai mni mxi uq props req ap mnp mxp allo anyo oneo no ref d t].
+    { destruct ba; destruct b as [[|]|ty' fmt' enum' cst' nv' sv' ik' items' ai' mni' mxi' uq' props' req' ap' mnp' mxp' allo' anyo' oneo' no' ref' d' t'];
+        try (split; [assumption | intros; assumption]);
+        try (intros v H1 H2; rewrite valid_SBool in *; discriminate). }
+    destruct b as [[|]|ty' fmt' enum' cst' nv' sv' ik' items' ai' mni' mxi' uq' props' req' ap' mnp' mxp' allo' anyo' oneo' no' ref' d' t'].
+    { split; [assumption | intros; assumption]. }
+    { intros v H1 H2; rewrite valid_SBool in *; discriminate. }
+    apply ofrag_shape in Fa. apply ofrag_shape in Fb.
+    destruct Fa as (-> & -> & -> & -> & -> & -> & -> & -> & -> & -> & -> & Nt & Se & Sc & Aa & Ga & Fp).
+    destruct Fb as (-> & -> & -> & -> & -> & -> & -> & -> & -> & -> & -> & Nt' & Se' & Sc' & Ab & Gb & Fp').
+    rewrite merge_obj_eq. unfold rs_ok.
+    pose proof (merge_obj_sound re_match fmt_ok o DV n (merge D f) IH (merge_bools f)
+                                props req ap mnp mxp props' req' ap' mnp' mxp' Fp Fp' Aa Ab) as Hobj.
+    destruct (merge_ty ty ty') as [tym|] eqn:Et.
+    - destruct (merge_nv nv nv') as [nvm| | |] eqn:En; cbn [mbind]; try exact I;
+        [|exfalso; eapply merge_nv_not_never; eauto].
+      destruct (merge_sv sv sv') as [svm| | |] eqn:Es; cbn [mbind]; try exact I;
+        [|exfalso; eapply merge_sv_not_never; eauto].
+      destruct (merge_obj (merge D f) (props, req, ap, mnp, mxp) (props', req', ap', mnp', mxp'))
+        as [[[[[pm rm] apm] mnm] mxm]| | |]; cbn [mbind]; try exact I.
+      + destruct Hobj as (Fpm & Am & Habs & Hsem).
+        destruct (merge_enum enum cst enum' cst') as [em| | |] eqn:Ee; cbn [mbind]; try exact I.
+        * pose proof (merge_ty_nonum _ _ _ Et Nt Nt') as Ntm.
+          pose proof (merge_enum_simple _ _ _ _ _ Ee Se Sc Se' Sc') as Sem.
+          split.
+          -- cbn [ofrag]. unfold arr_absent. rewrite Ntm, Am, Fpm. cbn [is_none negb andb opt_all].
+             assert (Hs : simple_enum (option_map (filter (value_validate tym None None)) em) = true).
+             { destruct em as [ev|]; [|reflexivity]. simpl. apply forallb_forall. intros w Hw.
+               apply filter_In in Hw. simpl in Sem. rewrite forallb_forall in Sem. apply Sem. apply Hw. }
+             rewrite Hs. cbn [andb].
+             assert (Hg : obj_absent pm rm apm mnm mxm || all_object tym = true).
+             { apply orb_true_iff in Ga. apply orb_true_iff in Gb. apply orb_true_iff.
+               destruct Ga as [Ga|Ga].
+               - destruct Gb as [Gb|Gb].
+                 + left. apply Habs; assumption.
+                 + right. eapply merge_ty_all_object; eauto.
+               - right. eapply merge_ty_all_object; eauto. }
+             rewrite Hg. reflexivity.
+          -- intros v. rewrite !V_ofrag. rewrite !andb_true_iff.
+             intros [[[[[[Ta Ea] Ca] Na] Sa] La] Oa] [[[[[[Tb Eb] Cb] Nb] Sb] Lb] Ob].
+             destruct (merge_ty_sem o ty ty' v Nt Nt' Ta Tb) as [t0 [Et0 [_ Tm]]].
+             rewrite Et in Et0. inversion Et0; subst t0.
+             pose proof (merge_enum_sem enum cst enum' cst' v Se Sc Se' Sc' Ea Ca Eb Cb) as Hem.
+             rewrite Ee in Hem. destruct Hem as [_ Hem].
+             assert (Hov : valid_obj_local rm mnm mxm v = true /\
+                           match v with JObj kvs => valid_obj V pm apm kvs | _ => true end = true).
+             { destruct v as [| | | | | |kvs]; try (split; reflexivity).
+               apply (Hsem kvs); split; assumption. }
+             destruct Hov as [Lm Om].
+             repeat split.
+             ++ exact Tm.
+             ++ apply enum_filter_sem; assumption.
+             ++ destruct (merge_nv_res _ _ _ En) as [->| ->]; assumption.
+             ++ destruct (merge_sv_res _ _ _ Es) as [->| ->]; assumption.
+             ++ exact Lm.
+             ++ exact Om.
+        * intros v. rewrite !V_ofrag. rewrite !andb_true_iff.
+          intros [[[[[[Ta Ea] Ca] Na] Sa] La] Oa] [[[[[[Tb Eb] Cb] Nb] Sb] Lb] Ob].
+          pose proof (merge_enum_sem enum cst enum' cst' v Se Sc Se' Sc' Ea Ca Eb Cb) as Hem.
+          rewrite Ee in Hem. exact Hem.
+      + destruct Hobj as (Na_ & Nb_ & Hnev).
+        intros v. rewrite !V_ofrag. rewrite !andb_true_iff.
+        intros [[[[[[Ta Ea] Ca] Na] Sa] La] Oa] [[[[[[Tb Eb] Cb] Nb] Sb] Lb] Ob].
+        rewrite Na_ in Ga. simpl in Ga.
+        destruct (all_object_obj o ty v Ga Ta) as [kvs ->].
+        apply (Hnev kvs); split; assumption.
+    - intros v. rewrite !V_ofrag. rewrite !andb_true_iff.
+      intros [[[[[[Ta Ea] Ca] Na] Sa] La] Oa] [[[[[[Tb Eb] Cb] Nb] Sb] Lb] Ob].
+      destruct (merge_ty_sem o ty ty' v Nt Nt' Ta Tb) as [t0 [Et0 _]].
+      rewrite Et in Et0. discriminate Et0.
+  Qed.
+End ObjThm.
+
+(* ====================================================================== merge_all on the object fragment *)
+Section ObjAll.
+  Variable re_match : ustring -> ustring -> bool.
+  Variable fmt_ok : ustring -> ustring -> bool.
+  Variable o : vopts.
+  Variable DV : defs.
+  Variable n : nat.
+  Variable D : defs.
+  Variable f : nat.
+  Variable v : json.
+
+  Local Notation V := (Valid.validx re_match fmt_ok o DV n).
+
+  Definition oacc_ok (r : mres schema) (P : Prop) : Prop :=
+    match r with
+    | MOk m => ofrag m = true /\ (P -> V m v = true)
+    | MNever => P -> False
+    | _ => True
+    end.
+
+  Lemma fold_ofrag rest : forall acc P,
+    oacc_ok acc P -> Forall (fun s => ofrag s = true) rest ->
+    oacc_ok (fold_left (fun a s => mbind a (fun x => merge D f x s)) rest acc)
+            (P /\ Forall (fun s => V s v = true) rest).
+  Proof.
+    induction rest as [|s rest IH]; intros acc P Hacc HF.
+    - simpl. destruct acc; unfold oacc_ok in *; try exact I.
+      + destruct Hacc as [H1 H2]. split; [exact H1 | intros [HP _]; auto].
+      + intros [HP _]. auto.
+    - cbn [fold_left]. inversion HF as [|? ? Hs HF']; subst.
+      assert (Hstep : oacc_ok (mbind acc (fun x => merge D f x s)) (P /\ V s v = true)).
+      { destruct acc as [x| | |]; unfold oacc_ok, mbind in *; try exact I.
+        - destruct Hacc as [Fx Hx].
+          pose proof (merge_ofrag_sound re_match fmt_ok o DV n D f x s Fx Hs) as H.
+          unfold rs_ok in H. destruct (merge D f x s); try exact I.
+          + destruct H as [H1 H2]. split; [exact H1 | intros [HP Hv]; apply H2; auto].
+          + intros [HP Hv]. eapply H; eauto.
+        - intros [HP _]. auto. }
+      specialize (IH _ _ Hstep HF').
+      destruct (fold_left (fun a s0 => mbind a (fun x => merge D f x s0)) rest
+                          (mbind acc (fun x => merge D f x s))); unfold oacc_ok in *; try exact I.
+      + destruct IH as [H1 H2]. split; [exact H1|]. intros [HP HA]. inversion HA; subst. apply H2. auto.
+      + intros [HP HA]. inversion HA; subst. apply IH. auto.
+  Qed.
+
+  Theorem merge_all_ofrag_sound L :
+    Forall (fun s => ofrag s = true) L ->
+    match merge_all D f L with
+    | MOk m => Forall (fun s => V s v = true) L -> V m v = true
+    | MNever => Forall (fun s => V s v = true) L -> False
+    | _ => True
+    end.
+  Proof.
+    intros HF. destruct L as [|a [|b rest]]; cbn [merge_all]; try exact I.
+    - intros H. inversion H; subst. assumption.
+    - inversion HF as [|? ? Ha HF1]; subst. inversion HF1 as [|? ? Hb HF2]; subst.
+      pose proof (merge_ofrag_sound re_match fmt_ok o DV n D f a b Ha Hb) as H0.
+      assert (Hacc : oacc_ok (merge D f a b) (V a v = true /\ V b v = true)).
+      { unfold rs_ok in H0. unfold oacc_ok. destruct (merge D f a b); try exact I.
+        - destruct H0 as [H1 H2]. split; [exact H1| intros [? ?]; apply H2; auto].
+        - intros [? ?]; eapply H0; eauto. }
+      pose proof (fold_ofrag rest _ _ Hacc HF2) as H.
+      unfold oacc_ok in H.
+      destruct (fold_left (fun a0 s => mbind a0 (fun x => merge D f x s)) rest (merge D f a b));
+        try exact I.
+      + destruct H as [_ H]. intros HA. inversion HA as [|? ? Va HA1]; subst.
+        inversion HA1 as [|? ? Vb HA2]; subst. apply H. auto.
+      + intros HA. inversion HA as [|? ? Va HA1]; subst.
+        inversion HA1 as [|? ? Vb HA2]; subst. apply H. auto.
+  Qed.
+End ObjAll.
+
+(* non-vacuity of the object theorems: the corpus cases s2 and s3 *)
+Definition obj_of (props : list (ustring * schema)) (req : list ustring) (ap : option schema) : schema :=
+  SObj (Some [TObject]) None None None numv_none strv_none ItemsAbsent [] None None None false
+       props req ap None None None None None None None None None.
+
+Lemma obj_example_ok :
+  let a := obj_of [([97%N], ty_only [TString])] [] None in
+  let b := obj_of [([98%N], ty_only [TInteger])] [] (Some (SBool false)) in
+  ofrag a = true /\ ofrag b = true /\
+  exists m, merge [] 4 a b = MOk m /\ ofrag m = true
+            /\ Vd [] 0 m (JObj [([98%N], JInt 1)]) = true /\ Vd [] 0 m (JObj [([97%N], JStr [])]) = false.
+Proof. cbv zeta. split; [reflexivity|]. split; [reflexivity|]. eexists. vm_compute. repeat split. Qed.
+
+Lemma obj_example_never :
+  let a := obj_of [([97%N], ty_only [TString])] [[97%N]] None in
+  let b := obj_of [([98%N], ty_only [TInteger])] [] (Some (SBool false)) in
+  ofrag a = true /\ ofrag b = true /\ merge [] 4 a b = MNever.
+Proof. vm_compute. repeat split. Qed.
